@@ -138,7 +138,7 @@ type Subspace struct {
 
 func NewRecorder(id, rule string) *Recorder {
 	return &Recorder{ID: id, Rule: rule, Level: "exploration", nontriv: map[uint64]struct{}{},
-		classes: map[string]int64{}, sampleCap: 12, start: time.Now(), known: map[string]int64{}, extra: map[string]interface{}{}}
+		classes: map[string]int64{}, samples: []interface{}{}, sampleCap: 12, start: time.Now(), known: map[string]int64{}, extra: map[string]interface{}{}}
 }
 
 func (r *Recorder) Require(classes ...string) { r.required = append(r.required, classes...) }
